@@ -9,7 +9,7 @@
    reproduces byte for byte. *)
 From Coq Require Import String NArith List Bool.
 From RC Require Import lib.Result model.Layout model.TrigTable model.RichCodec model.Str model.StrEditor model.Alloc
-  proofs.C04_proofs proofs.C04_readback proofs.C04_locations proofs.C04_cuwps proofs.C04_reload proofs.C04_reload_locs proofs.C04_reload_cuwps proofs.C04_reload_switches proofs.C04_switches proofs.C04_wavs model.ChkIo gen.GenConsts proofs.C07_triggers proofs.C07_slots model.RichIo proofs.C08_proofs proofs.C09_proofs proofs.Save_strings proofs.Save_refs gen.GenTrig spec.SpecTrig gen.GenFlags gen.GenConsts.
+  proofs.C04_proofs proofs.C04_readback proofs.C04_locations proofs.C04_cuwps proofs.C04_reload proofs.C04_reload_locs proofs.C04_reload_cuwps proofs.C04_reload_switches proofs.C04_capstone proofs.C04_switches proofs.C04_wavs model.ChkIo gen.GenConsts proofs.C07_triggers proofs.C07_slots model.RichIo proofs.C08_proofs proofs.C09_proofs proofs.Save_strings proofs.Save_refs gen.GenTrig spec.SpecTrig gen.GenFlags gen.GenConsts.
 Import ListNotations.
 Local Open Scope N_scope.
 
@@ -357,3 +357,27 @@ Theorem C04_a_switch_number_resolves_to_the_named_switch_after_reload :
     exists entry, assocN_last k (cx_switch_by_id cx') = Some entry /\ sw_norm entry = sw_norm s /\ s_idx entry = Some k.
 Proof. exact switch_number_resolves_after_reload. Qed.
 Print Assumptions C04_a_switch_number_resolves_to_the_named_switch_after_reload.
+
+(* A CAPSTONE INSTANCE, all links composed: one authored Center View action (type 10, one location argument) through `save` and
+   the load of the saved map - the record the save writes is read back by that load as a Center View action with the same
+   flags, whose location is the authored one (rectangle, name, elevation flags), carrying the number the save gave it *)
+Theorem C04_a_center_view_action_survives_save_and_reload :
+  forall wd r d' cx' ls mr sw up new_str SL l fl v i mv slot,
+    save wd r = Ok d' -> decode_context d' = Ok cx' ->
+    filter (named "MRGN") r = [RMrgn ls] -> rebuild_mrgn r = Ok mr ->
+    rebuild_str r = Ok new_str -> build_str_lookup 2 new_str = Ok SL -> (N.of_nat (length (sl_by_id SL)) <= 1000000)%N ->
+    NoDup (map fst (by_idx ls)) -> (forall x, In x (fst mr) -> length (l_elev x) = 6%nat) ->
+    let cx := save_context wd SL mr sw up in
+    encode_entry_of cx gen_action_table action_flags_codec action_record_fields (ERich 10 [("_location"%string, ALoc l)] fl) = Ok v ->
+    length fl = 5%nat ->
+    find_loc_id l (snd mr) None = Some i -> (1 <= i)%N ->
+    mrgn_encode SL (fst mr) = Ok mv -> nth_error (vlist "_locations" mv) (N.to_nat (i - 1)) = Some slot -> loc_is_unused slot = false ->
+    exists k0 args',
+      rloc_eqb l k0 = true /\
+      decode_entry_of cx' gen_action_table "TriggerActionId" "_action_id" action_flags_codec action_record_fields v
+        = Ok (Some (ERich 10 args' fl)) /\
+      arg_get rarg "_location" args' =
+        Ok (ALoc {| l_x1 := l_x1 k0; l_y1 := l_y1 k0; l_x2 := l_x2 k0; l_y2 := l_y2 k0; l_name := l_name k0;
+                    l_idx := Some i; l_elev := l_elev k0; l_oid := 0%N |}).
+Proof. exact center_view_survives_save_and_reload. Qed.
+Print Assumptions C04_a_center_view_action_survives_save_and_reload.
